@@ -22,6 +22,7 @@ CONSTANTS
   KeyTest = TRUE
   MaxDel = 0
   ObsoleteTimeout = 1
+  LockKeys = {}
   ConsumeNet = TRUE
   Ideal = TRUE
   Ghost = FALSE
